@@ -24,7 +24,7 @@ def build_time(spec):
 
 
 @st.composite
-def time_spec(draw, max_steps=200, kinds=("uniform", "quadratic", "geometric", "random", "big", "repeat", "intdays")):
+def time_spec(draw, max_steps=200, kinds=("uniform", "quadratic", "geometric", "random", "big", "repeat", "intdays", "scattered")):
     kind = draw(st.sampled_from(list(kinds)))
     if kind == "intdays":
         return {"kind": "intdays", "n": draw(st.integers(3, min(max_steps + 1, 150))), "step": draw(st.sampled_from([1, 1, 2, 30])), "start": draw(st.sampled_from([0, 0, 5])), "label": "intdays"}
@@ -37,6 +37,14 @@ def time_spec(draw, max_steps=200, kinds=("uniform", "quadratic", "geometric", "
     if kind == "random":
         n = draw(st.integers(2, min(max_steps, 60)))
         return {"kind": "steps", "steps": [10.0 ** draw(st.floats(-8.0, 4.0)) for _ in range(n)], "start": start, "label": "random"}
+    if kind == "scattered":
+        # times scattered uniformly over the transient (report dates, sorted): consecutive steps differ by factors of
+        # 10-100 while the profile is still moving - the situation in which node 0 rises when a step grows
+        n = draw(st.integers(5, min(max_steps, 60)))
+        T = draw(st.floats(0.05, 5.0))
+        u = sorted(draw(st.floats(0.0, 1.0)) for _ in range(n))
+        steps = [float(T * max(b - a, 1e-9)) for a, b in zip([0.0] + u[:-1], u)]
+        return {"kind": "steps", "steps": steps, "start": start, "label": "scattered"}
     if kind == "big":
         n = draw(st.integers(1, 5))
         return {"kind": "steps", "steps": [10.0 ** draw(st.floats(3.0, 12.0)) for _ in range(n)], "start": start, "label": "big"}
